@@ -197,3 +197,11 @@ package core
 //@   ensures n == mangos.OptionDialAsynch ==> isnil(result1) && result0 == iface(d.asynch)
 //@   before call:GetOption#1 assert n != mangos.OptionReconnectTime && n != mangos.OptionMaxReconnectTime && n != mangos.OptionDialAsynch && arg0 == n
 //@   before call:GetOption#2 assert arg0 == n
+//@
+//@ func (*dialer).pipeClosed
+//@   ensures called("AfterFunc")
+//@   before call:AfterFunc#1 assert arg0 == d.reconnTime && held(d.Mutex)
+//@
+//@ func (*listener).serve
+//@   before return#1 assert err == mangos.ErrClosed
+//@   before return#2 assert at("call:Unlock#1", l.closed)
